@@ -9,7 +9,8 @@
      - v2.1 starts from the empty state, v2 from the unconflicted state in power order;
      - the unconflicted events are re-applied last, so an unconflicted event is in the result;
      - the power ordering (6.2 r1-r3, Kahn from the leaves) of a repeat-free acyclic list is a
-       topological permutation for every sender-power assignment;
+       topological permutation for every sender-power assignment, and it is exactly the order
+       6.2 r1 defines (power_order_is_library_order);
      - the mainline ordering is a permutation sorted by (position, steps, timestamp, ID);
      - the partial state is a map: the result has at most one event per key.
    Not proved (covered by the correspondence and the oracles only): that the model's split /
@@ -17,7 +18,7 @@
    resolver's refinement r7. *)
 From Coq Require Import Permutation Sorted.
 From Verif Require Import Lib.Bytes StateRes.Event StateRes.Kahn StateRes.V2 StateRes.V1 StateRes.Entry
-     StateRes.SortProofs StateRes.KahnProofs StateRes.OrderProofs StateRes.ResultProofs StateRes.CmpProofs.
+     StateRes.SortProofs StateRes.KahnProofs StateRes.OrderProofs StateRes.ResultProofs StateRes.CmpProofs StateRes.KahnOrderProofs.
 
 Section C10.
   Variable allowed : event -> list event -> bool.
@@ -77,6 +78,26 @@ Section C10.
     topological_permutation e_auth l (power_order shP priv cl ud authmap create l).
   Proof. apply power_order_topological; assumption. Qed.
 
+
+  (* 6.2 r1-r2: the order the library publishes for the power events IS the order defined by
+     "repeatedly take, among the events no remaining event names, the greatest under (sender
+     power descending, timestamp ascending, event ID ascending) and put it last" - for a
+     repeat-free list with an acyclic auth relation (then there are no strays, r3) *)
+  Theorem power_order_is_library_order authmap create l (rank : bytes -> nat) :
+    NoDup (ids_of l) ->
+    (forall e a, In e l -> In a (e_auth e) -> In a (ids_of l) -> (rank a < rank (e_id e))%nat) ->
+    let items := map (fun e => mkPw e (sender_power priv cl ud authmap create e)) l in
+    let ordered := kahn (fun w => e_id (pw_ev w)) (fun w => e_auth (pw_ev w)) pw_cmp shP items in
+    power_order shP priv cl ud authmap create l = map pw_ev ordered /\
+    library_order pwrap (fun w => e_id (pw_ev w)) (fun w => e_auth (pw_ev w)) pw_cmp items ordered.
+  Proof.
+    intros ND R items ordered. split; [reflexivity|].
+    apply (kahn_is_library_order pwrap _ _ pw_cmp pw_cmp_good shP shP_perm items) with (rank := rank).
+    - unfold items. rewrite map_map. exact ND.
+    - intros w a Hw Ha Hin. unfold items in Hw, Hin. rewrite map_map in Hin. simpl in Hin.
+      apply in_map_iff in Hw as [e [<- He]]. simpl in *. apply R; assumption.
+  Qed.
+
   (* 6.2 r4: the mainline ordering rearranges its input and sorts it by the mainline key *)
   Theorem mainline_order_sorted authmap resolved_power l :
     Permutation (mainline_order authmap resolved_power l) l /\
@@ -119,5 +140,6 @@ Print Assumptions v2_starts_from_unconflicted.
 Print Assumptions unconflicted_reapplied_last.
 Print Assumptions unconflicted_in_result.
 Print Assumptions power_order_is_topological.
+Print Assumptions power_order_is_library_order.
 Print Assumptions mainline_order_sorted.
 Print Assumptions result_is_a_state_map.
